@@ -14,6 +14,7 @@ import Kingdon.Model.Api
 import Kingdon.Model.Composite
 import Kingdon.Model.Hitzer
 import Kingdon.Model.Matrix
+import Kingdon.Lemmas.SourceBase
 open Kingdon
 
 def hexDigit? (ch : Char) : Option Nat :=
@@ -199,6 +200,22 @@ def unOps : List (String × (Cfg → MV Poly → Option (MV Poly))) :=
    ("hodge", fun c x => some (hodge c x)), ("unhodge", fun c x => some (unhodge c x)),
    ("polarity", fun c x => polarityGen c false x), ("unpolarity", fun c x => polarityGen c true x)]
 
+/-! ### the *translated source* (Generated/Source.lean) run on the same inputs: validates the translator and its prelude -/
+open Kingdon.SrcEq in
+def srcBinOps : List (String × (Src.Alg → Py.Dict Int Poly → Py.Dict Int Poly → Py.M (Py.Dict Int Poly))) :=
+  [("gp", Src.codegen_gp), ("op", Src.codegen_op), ("ip", fun a x y => Src.codegen_ip a x y Py.abs), ("lc", Src.codegen_lc),
+   ("rc", Src.codegen_rc), ("sp", Src.codegen_sp), ("cp", Src.codegen_cp), ("acp", Src.codegen_acp), ("rp", Src.codegen_rp),
+   ("add", Src.codegen_add), ("sub", Src.codegen_sub)]
+
+def srcUnOps : List (String × (Src.Alg → Py.Dict Int Poly → Py.M (Py.Dict Int Poly))) :=
+  [("neg", Src.codegen_neg), ("reverse", Src.codegen_reverse), ("involute", Src.codegen_involute),
+   ("conjugate", Src.codegen_conjugate), ("hodge", fun a x => Src.codegen_hodge a x false), ("unhodge", Src.codegen_unhodge)]
+
+def renderSrc (r : Py.M (Py.Dict Int Poly)) : String :=
+  match r with
+  | .ok d => renderMV (SrcEq.uncastMV d)
+  | .error e => "raise:" ++ e
+
 def step (line : String) : String :=
   match (line.trimAscii.toString.splitOn " ").filter (· != "") with
   | ["cfginfo", cs] =>
@@ -235,6 +252,45 @@ def step (line : String) : String :=
   | ["grades", cs, gs] =>
     match parseCfg cs, parseNatList gs with
     | some c, some gs => joinC ((c.indicesForGrades gs).map toString)
+    | _, _ => "bad-op"
+  | ["srcbin", opn, cs, kx, ky] =>
+    match srcBinOps.lookup opn, parseCfg cs, parseNatList kx, parseNatList ky with
+    | some f, some c, some kx, some ky => renderSrc (f (SrcEq.algOf c) (SrcEq.castMV (symMV 0 kx)) (SrcEq.castMV (symMV 1000 ky)))
+    | _, _, _, _ => "bad-op"
+  | ["srcun", opn, cs, kx] =>
+    match srcUnOps.lookup opn, parseCfg cs, parseNatList kx with
+    | some f, some c, some kx => renderSrc (f (SrcEq.algOf c) (SrcEq.castMV (symMV 0 kx)))
+    | _, _, _ => "bad-op"
+  | ["srcsigns", cs] =>
+    match parseCfg cs with
+    | none => "bad-op"
+    | some c => joinC (c.canonKeys.flatMap fun I => c.canonKeys.map fun J =>
+        match Src.compute_sign (SrcEq.algOf c) (Int.ofNat I, Int.ofNat J) (some (SrcEq.pyName (c.nameOf I), SrcEq.pyName (c.nameOf J))) with
+        | .ok s => toString s
+        | .error e => "raise:" ++ e)
+  | ["srcsign", cs, i, j] =>
+    match parseCfg cs, i.toNat?, j.toNat? with
+    | some c, some I, some J =>
+      match Src.compute_sign (SrcEq.algOf c) (Int.ofNat I, Int.ofNat J) none with
+      | .ok s => toString s
+      | .error e => "raise:" ++ e
+    | _, _, _ => "bad-op"
+  | ["srcblade", cs, sp] =>
+    match parseCfg cs, parseName sp with
+    | some c, some w =>
+      match Src.blade2canon (SrcEq.algOf c) (SrcEq.pyName w) with
+      | .ok (nm, sw) => String.ofList nm ++ " " ++ toString sw
+      | .error e => "raise:" ++ e
+    | _, _ => "bad-op"
+  | ["srcnames", bs, d, st] =>
+    -- bs: '-' (no basis) or names separated by commas (each: 'e' followed by hex digits)
+    match d.toNat?, st.toInt? with
+    | some d, some st =>
+      let basis : List (List Char) := if bs == "-" then [] else (bs.splitOn ",").map String.toList
+      match Src.post_init_names basis (Int.ofNat d) st with
+      | .ok (s, c2b, b2c) => s!"{s}|" ++ joinC (c2b.map fun (n, k) => String.ofList n ++ ":" ++ toString k) ++ "|" ++
+          joinC (b2c.map fun (k, n) => toString k ++ ":" ++ String.ofList n)
+      | .error e => "raise:" ++ e
     | _, _ => "bad-op"
   | ["bin", opn, cs, kx, ky] =>
     match binOps.lookup opn, parseCfg cs, parseNatList kx, parseNatList ky with
